@@ -35,6 +35,11 @@ def variants(p, lm):
         raise Fail("option-not-passed-through", f"labelmsm={lm!r}: static parser result differs from RTCMMessage(payload, labelmsm)")
     if pub(RTCMReader.parse(f, validate=0, labelmsm=lm)) != pa:
         raise Fail("option-not-passed-through", f"labelmsm={lm!r}: static parser with validate=0 differs from RTCMMessage(payload, labelmsm)")
+    # the static parser called through a reader instance that was built with another option: the argument decides
+    for other in (1, 2):
+        inst = RTCMReader(io.BytesIO(b""), labelmsm=other, validate=0)
+        if pub(inst.parse(f, labelmsm=lm)) != pa or pub(inst.parse(f, validate=1, labelmsm=lm)) != pa:
+            raise Fail("option-not-passed-through", f"labelmsm={lm!r}: RTCMReader.parse called on a reader instance built with labelmsm={other} differs from RTCMMessage(payload, labelmsm)")
     # every reader configuration must hand the option to the parse (two frames: the option must reach every parse)
     for val in (1, 0):
         for qoe in (2, 0):
